@@ -14,6 +14,7 @@ import Bmc.Proofs.GenHs.Wrappers
 import Bmc.Proofs.GenHs.NewV2Session
 import Bmc.Proofs.GenHs.Examples
 import Bmc.Proofs.EndToEnd.HandshakeC01
+import Bmc.Proofs.EndToEnd.SessionC01
 #print axioms Bmc.Proofs.C01.keys_are_spec
 #print axioms Bmc.Proofs.C01.session_ids
 #print axioms Bmc.Proofs.C01.unsupported_refused
@@ -72,3 +73,4 @@ import Bmc.Proofs.EndToEnd.HandshakeC01
 #print axioms Bmc.Proofs.EndToEnd.hsRun_against_spec_bmc
 #print axioms Bmc.Proofs.EndToEnd.generated_newV2Session_live
 #print axioms Bmc.Proofs.EndToEnd.generated_newV2Session_against_spec_bmc
+#print axioms Bmc.Proofs.EndToEnd.generated_SendCommand_answered
